@@ -752,6 +752,73 @@ def gen_utm_cases(out, tier, reg):
     return cases
 
 
+# ------------------------------------------------------------------ correspondence: the footprint request
+def gen_footprint_cases(out, tier, reg):
+    """What compute_output_geobox asks of GeoBoxBase.footprint (buffer, npoints) and the distance
+    footprint hands to Geometry.buffer, observed by wrapping both."""
+    from affine import Affine
+    from odc.geo import geom, wh_
+    from odc.geo.geobox import GeoBox, GeoBoxBase
+    from odc.geo.overlap import compute_output_geobox
+
+    rng = core.rng("c11-footprint")
+    cases = []
+    seen_buf, seen_fp = [], []
+    orig_buf, orig_fp = geom.Geometry.buffer, GeoBoxBase.footprint
+
+    def w_buf(self, distance, *a, **k):
+        seen_buf.append(float(distance))
+        return orig_buf(self, distance, *a, **k)
+
+    def w_fp(self, crs, buffer=0, npoints=100):
+        seen_fp.append((float(buffer), int(npoints)))
+        return orig_fp(self, crs, buffer, npoints)
+
+    geom.Geometry.buffer = w_buf
+    GeoBoxBase.footprint = w_fp
+    try:
+        res_list = [(16, -16), (-16, -16), (16, 16), (-16, 16), (8, -32), (32, -8), (-32, -8), (-8, -32), (-4, 8),
+                    (0.25, -0.25), (-0.5, -0.125)]
+        for rx, ry in res_list:
+            g = GeoBox(wh_(40, 30), Affine(rx, 0, 600000, 0, ry, 5000000), "EPSG:32633")
+            for b in (0.9, 0.5, 2.0, 0.75):
+                del seen_buf[:]
+                g.footprint(g.crs, buffer=b)
+                want_exact = F(b) * max(abs(F(rx)), abs(F(ry)))
+                if len(seen_buf) != 1 or not representable(want_exact):
+                    out.count("buffer:discarded")
+                    continue
+                cases.append(f"CBuffer {cq(F(b))} {cq(F(rx))} {cq(F(ry))} {cq(F(seen_buf[0]))}")
+                out.count("buffer")
+                out.case(("buffer", rx, ry, b), True)
+            # through compute_output_geobox: buffer argument and the distance it leads to
+            del seen_buf[:], seen_fp[:]
+            compute_output_geobox(g, g.crs, resolution=64.0)
+            if len(seen_fp) == 1 and len(seen_buf) <= 1:
+                dist = seen_buf[0] if seen_buf else 0.0      # footprint skips Geometry.buffer when buffer == 0
+                cases.append(f"CBuffer {cq(F(seen_fp[0][0]))} {cq(F(rx))} {cq(F(ry))} {cq(F(dist))}")
+                cases.append(f"CBuffer {cq(F(0.9))} {cq(F(rx))} {cq(F(ry))} {cq(F(dist))}")
+                out.count("buffer:via-compute_output_geobox", 2)
+        shapes = [(1, 1), (30, 40), (25599, 100), (100, 25600), (25855, 25856), (51199, 3), (51200, 51200), (2560000, 7),
+                  (5, 2560255), (2560256, 2560256), (10 ** 7, 10 ** 6)]
+        for _ in range(6 if tier == "quick" else 60):
+            shapes.append((rng.randint(1, 3 * 10 ** 6), rng.randint(1, 3 * 10 ** 6)))
+        for ny, nx in shapes:
+            g = GeoBox(wh_(nx, ny), Affine(16, 0, 0, 0, -16, 0), "EPSG:3857")
+            del seen_fp[:]
+            compute_output_geobox(g, g.crs, resolution=4096.0)
+            if len(seen_fp) != 1:
+                continue
+            cases.append(f"CNpoints {cz(ny)} {cz(nx)} {cz(seen_fp[0][1])}")
+            out.count("npoints")
+            out.case(("npoints", ny, nx), True, {"op": "footprint request", "shape": [ny, nx], "buffer": seen_fp[0][0],
+                                                  "npoints": seen_fp[0][1]} if (ny, nx) == (51200, 51200) else None)
+    finally:
+        geom.Geometry.buffer = orig_buf
+        GeoBoxBase.footprint = orig_fp
+    return cases
+
+
 # ------------------------------------------------------------------ search: the property on the implementation
 def sample_source_points(src, k_edge, k_in):
     """Pixel-space sample: dense edge points, pixel corners, and pixel centres on a grid."""
@@ -1065,7 +1132,8 @@ def search(out, tier):
         out.case(("search", src_s, scn), True)
         if "enclosure_margin_px" in facts and not isinstance(scn["shape"], list):
             margins.append((facts["enclosure_margin_px"] + scn["tol"], label, scn["crs"]))
-        if "contract_margin_px" in facts:
+        if "contract_margin_px" in facts and scn["shape"] is None and scn["resolution"] in ("auto", "fit") \
+                and not (scn["resolution"] == "auto" and label in ("non-square",)):
             contract.append((facts["contract_margin_px"], label, scn["crs"]))
         for clause, detail in fails:
             key = f"c11:{clause}"
@@ -1103,12 +1171,14 @@ def search(out, tier):
                     run(label, src_s, scenario(crs, [r, -r / 2], anchor=["str", "center"]))
     if margins:
         m = min(margins)
-        out.notes.append(f"enclosure (testing): smallest distance of a projected source sample point from the result's edge "
-                         f"plus tol = {m[0]:.4f} output pixel ({m[1]} -> {m[2]}); {len(margins)} requests sampled")
+        out.notes.append(f"enclosure (testing): over {len(margins)} sampled requests every projected source sample point is inside "
+                         f"the result up to tol; smallest (distance to the result's edge + tol) = {m[0]:.3g} output pixel "
+                         f"({m[1]} -> {m[2]}; tiny values belong to requests whose output pixel is far larger than a source pixel)")
     if contract:
         m = min(contract)
-        out.notes.append(f"footprint contract (testing): projected source samples lie inside the box handed to from_bbox with "
-                         f"margin >= {m[0]:.4f} output pixel over {len(contract)} requests (worst: {m[1]} -> {m[2]})")
+        out.notes.append(f"footprint contract (testing): for auto/fit requests (output pixel ~ source pixel) the projected source "
+                         f"samples lie inside the box handed to from_bbox with margin >= {m[0]:.3f} output pixel over "
+                         f"{len(contract)} requests (worst: {m[1]} -> {m[2]}); the buffer is 0.9 source pixel")
 
 
 # ------------------------------------------------------------------ entry points
@@ -1131,8 +1201,9 @@ def run(out, tier, scratch):
     reg = Registry()
     leaf = gen_leaf_cases(out, tier, reg)
     utm = gen_utm_cases(out, tier, reg)
+    fpc = gen_footprint_cases(out, tier, reg)
     outc, infos = gen_out_cases(out, tier, reg)
-    cases = leaf + utm + outc
+    cases = leaf + utm + fpc + outc
     fails, log = core.coq_eval_failures(REQ, "case", "check", cases, scratch, shard=250)
     detail = ""
     if fails:
@@ -1154,7 +1225,9 @@ META = {
              "resolution, fit -> square rounded fit, explicit, invalid string -> ValueError); covering of the footprint box up "
              "to tol pixel per side with excess below one pixel; enclosure of every projected source pixel from the footprint "
              "contract; pixel edges at (integer + anchor) * pixel size, tight/floating start at the box; exact explicit shape "
-             "with displacement < 1 pixel; single-number shape; totality in the domain; utm hemisphere table.  Tied to "
+             "with displacement < 1 pixel; single-number shape; totality in the domain; utm hemisphere table; the footprint "
+             "request (buffer distance positive for every sign pattern - refuted for the unrepaired expression; 100..10000 "
+             "points per side, segments < 256 pixels).  Tied to "
              "odc/geo/{overlap,geobox,math,crs}.py by exact differential execution with the oracle values observed inside the "
              "real calls, plus direct predicates (pyproj as reference) on tiles to continents."),
     "note": ("Trusted: Coq kernel; the hand-written model coq/Model/OutGeobox.v (validated by the correspondence of this run); "
@@ -1167,7 +1240,10 @@ META = {
              "here by dense sampling over CRS pairs and extents, margin reported in the evidence.  Theorem domains: l<r, b<t, "
              "tol>=0, positive shapes; anchors in [0,1) and non-zero resolution are implied by a successful result.  A single "
              "number shape n is proved as the code defines it: pixel = longest footprint side / n, n pixels when unsnapped, n or "
-             "n+1 when the origin is snapped.  Not proved: projection accuracy, the UTM database contents, GCPGeoBox sources."),
+             "n+1 when the origin is snapped.  Two defects of the unchanged tree were found by the sampling and repaired in the "
+             "repo branch (mirrored grids got a negative footprint buffer; 100 boundary points per side were too few for "
+             "continental extents at <= 10 m pixels); their witnesses are in corpus/C11.  Not proved: projection accuracy, "
+             "the UTM database contents, GCPGeoBox sources."),
     "technique": "Coq proof over hand-written Gallina model + exact differential correspondence (vm_compute) with oracle values observed inside the real calls + direct property predicates",
     "design_ref": "DESIGN.md section 5, C11 (and C08 for from_bbox)",
 }
